@@ -1,0 +1,11 @@
+//go:build verif
+
+package p2psender
+
+// Contracts for the deductive checks in /verif (comment-only; no code).
+
+// Used at call sites of the announce receiver only: closing the sender touches
+// pubsub-internal state, nothing the receiver holds.
+//@ func (*Sender).Close
+//@   trusted "leaves the pubsub topic / cancels pubsub; only pubsub-internal state changes"
+//@   pure
